@@ -1704,10 +1704,10 @@ Proof.
   (* quoted *)
   assert (Hq : forall txt, (F = CC_PRIVATE \/ F = CC_NO_CACHE) -> forallb qd_char txt = true ->
                  (F = CC_PRIVATE -> txt = private_ st) -> (F = CC_NO_CACHE -> txt = no_cache st) ->
-                 pk_arg st F = match txt with [] => [] | v => [61; 34] ++ v ++ [34] end -> item_view st F).
+                 pk_arg st F = match txt with [] => [] | a :: l => [61; 34] ++ (a :: l) ++ [34] end -> item_view st F).
   { intros txt HFq Htxt Hp1 Hp2 Ha.
     assert (Ht : d_type (pack_one st F) = F).
-    { rewrite pack_one_eq, Ha. apply d_type_name_arg; [exact HF|]. destruct txt; [now left|right; eauto]. }
+    { rewrite pack_one_eq, Ha. apply d_type_name_arg; [exact HF|]. destruct txt; [now left|right; eexists; reflexivity]. }
     assert (Hqs : qs_text (d_qs (pack_one st F)) = txt).
     { rewrite pack_one_eq, Ha. destruct txt as [|t0 tr].
       - rewrite app_nil_r. destruct (d_plain F HF) as [_ ->]. reflexivity.
@@ -1744,4 +1744,125 @@ Proof.
     + discriminate.
     + discriminate.
   - apply Hnumv; [reflexivity|]. unfold pk_arg. cbn. now rewrite Eany.
+Qed.
+
+(* --- the specification of the packed elements is the object itself --- *)
+Lemma find_known st : cc_wf st -> forall ids F,
+  find (sel F) (flat_map (kn st) ids) =
+  if existsb (N.eqb F) ids && isSet st F && negb (F =? CC_OTHER) then Some (pack_one st F) else None.
+Proof.
+  intros Hwf. induction ids as [|G r IH]; intros F; [reflexivity|].
+  cbn [flat_map existsb]. unfold kn at 1.
+  destruct (isSet st G && negb (G =? CC_OTHER)) eqn:EG.
+  - apply andb_prop in EG. destruct EG as [HS HG].
+    assert (HG' : G < CC_OTHER).
+    { destruct Hwf as (_ & _ & _ & _ & Hhigh). destruct (G <? CC_OTHER) eqn:E; [lia|].
+      rewrite (Hhigh G) in HS by lia. discriminate. }
+    destruct (item_view_ok st G Hwf HG' HS) as [_ Ht He _ _ _].
+    cbn [app find]. unfold sel at 1. rewrite Ht, He, andb_true_r.
+    destruct (G =? F) eqn:E.
+    + assert (G = F) by lia. subst G. rewrite N.eqb_refl, HS, HG. reflexivity.
+    + rewrite IH. replace (F =? G) with false by lia. reflexivity.
+  - cbn [app]. rewrite IH. destruct (F =? G) eqn:E; [|reflexivity].
+    assert (F = G) by lia. subst G. cbn [orb andb].
+    rewrite <- andb_assoc, EG, andb_false_r. reflexivity.
+Qed.
+
+Lemma in_all_flags F : F < CC_ENUM_END -> existsb (N.eqb F) all_flags = true.
+Proof.
+  intros H. unfold CC_ENUM_END in H.
+  assert (Hc : F = 0 \/ F = 1 \/ F = 2 \/ F = 3 \/ F = 4 \/ F = 5 \/ F = 6 \/ F = 7 \/ F = 8 \/ F = 9 \/
+               F = 10 \/ F = 11 \/ F = 12 \/ F = 13 \/ F = 14) by lia.
+  repeat (destruct Hc as [Hc|Hc]; [subst F; reflexivity|]). subst F; reflexivity.
+Qed.
+
+Lemma find_known_all st F : cc_wf st -> F < CC_OTHER ->
+  find (sel F) (known st) = if isSet st F then Some (pack_one st F) else None.
+Proof.
+  intros Hwf HF. unfold known. rewrite (find_known st Hwf).
+  rewrite in_all_flags by (unfold CC_OTHER, CC_ENUM_END in *; lia).
+  replace (F =? CC_OTHER) with false by lia. cbn [andb negb]. now rewrite andb_true_r.
+Qed.
+
+Lemma existsb_find {A} (p : A -> bool) l : existsb p l = match find p l with Some _ => true | None => false end.
+Proof. induction l as [|x l IH]; [reflexivity|]. cbn [existsb find]. destruct (p x); [reflexivity|exact IH]. Qed.
+
+Lemma known_types st : cc_wf st -> Forall (fun it => d_type it <> CC_OTHER) (known st).
+Proof.
+  intros Hwf. unfold known. induction all_flags as [|G r IH]; [constructor|].
+  cbn [flat_map]. unfold kn at 1. destruct (isSet st G && negb (G =? CC_OTHER)) eqn:EG; [|exact IH].
+  apply andb_prop in EG. destruct EG as [HS HG]. cbn [app]. constructor; [|exact IH].
+  assert (HG' : G < CC_OTHER).
+  { destruct Hwf as (_ & _ & _ & _ & Hhigh). destruct (G <? CC_OTHER) eqn:E; [lia|].
+    rewrite (Hhigh G) in HS by lia. discriminate. }
+  destruct (item_view_ok st G Hwf HG' HS) as [_ Ht _ _ _ _]. rewrite Ht. lia.
+Qed.
+
+Lemma known_good st : cc_wf st -> Forall good_item (known st).
+Proof.
+  intros Hwf. unfold known. induction all_flags as [|G r IH]; [constructor|].
+  cbn [flat_map]. unfold kn at 1. destruct (isSet st G && negb (G =? CC_OTHER)) eqn:EG; [|exact IH].
+  apply andb_prop in EG. destruct EG as [HS HG]. cbn [app]. constructor; [|exact IH].
+  assert (HG' : G < CC_OTHER).
+  { destruct Hwf as (_ & _ & _ & _ & Hhigh). destruct (G <? CC_OTHER) eqn:E; [lia|].
+    rewrite (Hhigh G) in HS by lia. discriminate. }
+  destruct (item_view_ok st G Hwf HG' HS) as [Ha _ _ _ _ _]. rewrite pack_one_eq. now apply good_name_arg.
+Qed.
+
+Theorem spec_known st : cc_wf st -> other st = [] -> spec_cc (known st) = st.
+Proof.
+  intros Hwf Hoth. pose proof Hwf as (Hrange & Hpv & Hnc & (Hinum & Hipv & Hinc) & Hhigh).
+  symmetry. apply cc_ext; unfold spec_cc; cbn [cmask max_age s_maxage max_stale stale_if_error min_fresh private_ no_cache other].
+  - apply N.bits_inj. intros n. rewrite testbit_mask_of. change (N.testbit (cmask st) n) with (isSet st n).
+    destruct (n <? CC_OTHER) eqn:E.
+    + unfold spec_bit. rewrite existsb_find, (find_known_all st n Hwf) by lia.
+      replace (n <? CC_ENUM_END) with true by (unfold CC_OTHER, CC_ENUM_END in *; lia).
+      destruct (isSet st n); reflexivity.
+    + rewrite (Hhigh n) by lia. symmetry.
+      destruct (n <? CC_ENUM_END) eqn:E2; [|apply andb_false_r]. rewrite andb_true_r.
+      assert (n = CC_OTHER) by (unfold CC_OTHER, CC_ENUM_END in *; lia). subst n.
+      unfold spec_bit. pose proof (known_types st Hwf) as Hk. induction (known st) as [|x l IHl]; [reflexivity|].
+      inversion Hk; subst. cbn [existsb]. rewrite IHl by assumption. rewrite orb_false_r.
+      unfold sel. replace (d_type x =? CC_OTHER) with false by lia. reflexivity.
+  - assert (G : forall F, is_numeric_type F = true -> F < CC_OTHER -> get_num st F = spec_num (known st) F).
+    { intros F HFn HF. unfold spec_num. rewrite (find_known_all st F Hwf HF).
+      destruct (isSet st F) eqn:ES.
+      - destruct (item_view_ok st F Hwf HF ES) as [_ _ _ Hn _ _]. now rewrite Hn.
+      - now apply Hinum. }
+    exact (G CC_MAX_AGE eq_refl eq_refl).
+  - assert (G : forall F, is_numeric_type F = true -> F < CC_OTHER -> get_num st F = spec_num (known st) F).
+    { intros F HFn HF. unfold spec_num. rewrite (find_known_all st F Hwf HF).
+      destruct (isSet st F) eqn:ES.
+      - destruct (item_view_ok st F Hwf HF ES) as [_ _ _ Hn _ _]. now rewrite Hn.
+      - now apply Hinum. }
+    exact (G CC_S_MAXAGE eq_refl eq_refl).
+  - assert (G : forall F, is_numeric_type F = true -> F < CC_OTHER -> get_num st F = spec_num (known st) F).
+    { intros F HFn HF. unfold spec_num. rewrite (find_known_all st F Hwf HF).
+      destruct (isSet st F) eqn:ES.
+      - destruct (item_view_ok st F Hwf HF ES) as [_ _ _ Hn _ _]. now rewrite Hn.
+      - now apply Hinum. }
+    exact (G CC_MAX_STALE eq_refl eq_refl).
+  - assert (G : forall F, is_numeric_type F = true -> F < CC_OTHER -> get_num st F = spec_num (known st) F).
+    { intros F HFn HF. unfold spec_num. rewrite (find_known_all st F Hwf HF).
+      destruct (isSet st F) eqn:ES.
+      - destruct (item_view_ok st F Hwf HF ES) as [_ _ _ Hn _ _]. now rewrite Hn.
+      - now apply Hinum. }
+    exact (G CC_STALE_IF_ERROR eq_refl eq_refl).
+  - assert (G : forall F, is_numeric_type F = true -> F < CC_OTHER -> get_num st F = spec_num (known st) F).
+    { intros F HFn HF. unfold spec_num. rewrite (find_known_all st F Hwf HF).
+      destruct (isSet st F) eqn:ES.
+      - destruct (item_view_ok st F Hwf HF ES) as [_ _ _ Hn _ _]. now rewrite Hn.
+      - now apply Hinum. }
+    exact (G CC_MIN_FRESH eq_refl eq_refl).
+  - unfold spec_text. rewrite (find_known_all st CC_PRIVATE Hwf eq_refl).
+    destruct (isSet st CC_PRIVATE) eqn:ES.
+    + destruct (item_view_ok st CC_PRIVATE Hwf eq_refl ES) as [_ _ _ _ Hp _]. now rewrite Hp.
+    + now apply Hipv.
+  - unfold spec_text. rewrite (find_known_all st CC_NO_CACHE Hwf eq_refl).
+    destruct (isSet st CC_NO_CACHE) eqn:ES.
+    + destruct (item_view_ok st CC_NO_CACHE Hwf eq_refl ES) as [_ _ _ _ _ Hp]. now rewrite Hp.
+    + now apply Hinc.
+  - rewrite Hoth. unfold spec_other. pose proof (known_types st Hwf) as Hk.
+    induction (known st) as [|x l IHl]; [reflexivity|]. inversion Hk; subst. cbn [filter].
+    replace (d_type x =? CC_OTHER) with false by lia. now apply IHl.
 Qed.
